@@ -907,6 +907,20 @@ class Fn:
                     self.bad(e, '%s: function shape' % b)
                 return '(py_%s %s %s)' % (b, name, X(e.args[1], cap=False, lazy=True))
             self.bad(e, 'builtin %s with %d arguments' % (b, n))
+        if isinstance(f, ast.Name) and f.id == 'isinstance' and f.id not in self.scope() and self.tr.resolve(self.mod, f.id) is None and n == 2:
+            rc = self.tr.static(self.mod, e.args[1], self.scope())
+            if not rc or rc[0] != 'class' or self.tr.is_enum(rc[1], rc[2]):
+                self.bad(e, 'isinstance with something else than a user-defined class')
+            yes, no = [], []
+            for m in self.tr.world:  # closed world: exact for the classes of the world modules, VErr for any other object
+                for c in m.tree.body:
+                    if isinstance(c, ast.ClassDef):
+                        try:
+                            sub = any(x is rc[2] for _, x in self.tr.mro(m, c))
+                        except Unsupported:
+                            continue
+                        (yes if sub else no).append(self.tr.tag(m, c))
+            return '(py_isinstance %s [%s] [%s])' % (X(e.args[0], cap=False), '; '.join(yes), '; '.join(no))
         r = self.tr.static(self.mod, f, self.scope())
         if r and r[0] in ('func', 'class') and r[1].dotted in self.tr.opaque:
             # the call itself as a value: VObj "call:<module>.<name>" [arguments] (what the callee does is not translated)
@@ -1035,6 +1049,15 @@ TARGETS = {
         (_EN + 'impl', 'Phase'), (_EN + 'impl', 'TheInstructionEmbryo'), (_EN + 'impl', 'TheInstructionEmbryo._resolve_applier'),
         (_EN + 'impl', 'TheInstructionEmbryo._resolve_applier_factory')] + [('exactly_lib.tcfs.sds', q) for q in ('SUB_DIRECTORY__ACT', 'SUB_DIRECTORY__TMP_USER', 'SUB_DIRECTORY__RESULT')]),
     'ActSource': dict(prop='C07', world=[], roots=[('exactly_lib.processing.parse.act_phase_source_parser', '_un_escape_at_beginning_of_line')]),
+    'SuiteConf': dict(prop='C17', world=['exactly_lib.section_document.model',
+                                         'exactly_lib.test_suite.instruction_set.sections.configuration.instruction_definition',
+                                         'exactly_lib.test_suite.instruction_set.sections.configuration.preprocessor',
+                                         'exactly_lib.test_case.phases.configuration',
+                                         'exactly_lib.impls.instructions.configuration.actor',
+                                         'exactly_lib.impls.instructions.configuration.test_case_status'], roots=[
+        ('exactly_lib.section_document.model', 'ElementType'), ('exactly_lib.section_document.model', 'SectionContents'),
+        ('exactly_lib.section_document.model', 'SectionContentElement'), ('exactly_lib.section_document.model', 'InstructionInfo'),
+        ('exactly_lib.test_suite.file_reading.suite_file_reading', '_separate_configuration_elements')]),
     'Timeout': dict(prop='C19', world=[], roots=[('exactly_lib.definitions.os_proc_env', 'TIMEOUT__DEFAULT')]),
 }
 
